@@ -149,7 +149,7 @@ class Quantity:
         if isinstance(other, (int, float)):
             other = Quantity(other)
         if np.all(other.magnitude.value!=0):
-            other.to(self.units())
+            other = Quantity(other.magnitude, other.baseunits).to(self.units())
         if not np.allclose(self.magnitude.value, other.magnitude.value, rtol=MAGNITUDE_PRECISION):
             return False
         if not self.baseunits==other.baseunits:
